@@ -87,7 +87,22 @@ Utf8From(s, i) ==
     ELSE IF c >= 241 /\ c <= 243 THEN i + 3 <= n /\ Cont(s[i + 1]) /\ Cont(s[i + 2]) /\ Cont(s[i + 3]) /\ Utf8From(s, i + 4)
     ELSE IF c = 244 THEN i + 3 <= n /\ s[i + 1] >= 128 /\ s[i + 1] <= 143 /\ Cont(s[i + 2]) /\ Cont(s[i + 3]) /\ Utf8From(s, i + 4)
     ELSE FALSE
-ValidUtf8(s) == Utf8From(s, 1)
+\* the same table as a left-to-right automaton (TLC folds it in linear time; MC_Utf8 checks that it is Utf8From):
+\* need = continuation bytes still expected, [lo, hi] = the range allowed for the next one
+Utf8Step(a, c) ==
+  IF ~a.ok THEN a
+  ELSE IF a.need > 0
+       THEN IF c >= a.lo /\ c <= a.hi THEN [ok |-> TRUE, need |-> a.need - 1, lo |-> 128, hi |-> 191] ELSE [a EXCEPT !.ok = FALSE]
+  ELSE IF c < 128 THEN a
+  ELSE IF c >= 194 /\ c <= 223 THEN [ok |-> TRUE, need |-> 1, lo |-> 128, hi |-> 191]
+  ELSE IF c = 224 THEN [ok |-> TRUE, need |-> 2, lo |-> 160, hi |-> 191]
+  ELSE IF (c >= 225 /\ c <= 236) \/ c = 238 \/ c = 239 THEN [ok |-> TRUE, need |-> 2, lo |-> 128, hi |-> 191]
+  ELSE IF c = 237 THEN [ok |-> TRUE, need |-> 2, lo |-> 128, hi |-> 159]
+  ELSE IF c = 240 THEN [ok |-> TRUE, need |-> 3, lo |-> 144, hi |-> 191]
+  ELSE IF c >= 241 /\ c <= 243 THEN [ok |-> TRUE, need |-> 3, lo |-> 128, hi |-> 191]
+  ELSE IF c = 244 THEN [ok |-> TRUE, need |-> 3, lo |-> 128, hi |-> 143]
+  ELSE [a EXCEPT !.ok = FALSE]
+ValidUtf8(s) == LET r == SX!FoldLeft(Utf8Step, [ok |-> TRUE, need |-> 0, lo |-> 128, hi |-> 191], s) IN r.ok /\ r.need = 0
 
 -----------------------------------------------------------------------------
 (* Kinds *)
@@ -294,12 +309,10 @@ RECURSIVE EncM(_, _, _, _), EncItems(_, _, _, _, _), EncTs(_, _, _, _, _, _), En
 
 \* items of one element type, one after the other, optionally each preceded by the flag 1
 EncItems(m, T, vs, flagged, st) ==
-  IF vs = <<>> THEN EOk(<<>>, st)
-  ELSE LET r == EncM(m, T, Head(vs), st) IN
-       IF ~r.ok THEN r
-       ELSE LET rest == EncItems(m, T, Tail(vs), flagged, r.st) IN
-            IF ~rest.ok THEN rest
-            ELSE EOk((IF flagged THEN <<1>> ELSE <<>>) \o r.b \o rest.b, rest.st)
+  LET step(a, x) == IF ~a.ok THEN a
+                    ELSE LET r == EncM(m, T, x, a.st) IN
+                         IF ~r.ok THEN r ELSE EOk(a.b \o (IF flagged THEN <<1>> ELSE <<>>) \o r.b, r.st)
+  IN SX!FoldLeft(step, EOk(<<>>, st), vs)
 
 \* values vs[i..] of types Ts[i..] one after the other
 EncTs(m, Ts, vs, i, off, st) ==   \* value of Ts[i] is vs[i + off]
